@@ -737,8 +737,13 @@ func run(t interface{ Fatalf(string, ...interface{}) }, test string, c Case) {
 	}
 }
 
+func propPagination(t *rapid.T) { run(t, "TestPagination", genCase(t)) }
+
+// FuzzPagination: the same property driven by the coverage-guided engine (thorough tier).
+func FuzzPagination(f *testing.F) { f.Fuzz(rapid.MakeFuzz(propPagination)) }
+
 func TestPagination(t *testing.T) {
-	rapid.Check(t, func(t *rapid.T) { run(t, "TestPagination", genCase(t)) })
+	rapid.Check(t, propPagination)
 }
 
 func TestReplay(t *testing.T) {
